@@ -92,7 +92,11 @@ func replayModel(pkgPath, fn string, mdl map[string]interface{}, tier string, ra
 			break
 		}
 	}
-	testSrc := fmt.Sprintf("package %s\n\nimport \"testing\"\n\nfunc TestVerifReplay(t *testing.T) {\n\t%s()\n\tt.Log(\"VERIF-REACHED\", verifReached)\n}\n", pkgName, fn)
+	callExpr := fn + "()"
+	if k := strings.IndexByte(fn, '#'); k >= 0 {
+		callExpr = fn[:k] + "(" + fn[k+1:] + ")"
+	}
+	testSrc := fmt.Sprintf("package %s\n\nimport \"testing\"\n\nfunc TestVerifReplay(t *testing.T) {\n\t%s\n\tt.Log(\"VERIF-REACHED\", verifReached)\n}\n", pkgName, callExpr)
 	ov[filepath.Join(repoDir, dir, "zz_verif_replay_test.go")] = []byte(testSrc)
 	repl := map[string]string{}
 	n := 0
@@ -245,6 +249,9 @@ func harnessServes(name, id string) bool {
 	// VerifH_C01C02_Foo or VerifH_C03_Foo
 	i := strings.Index(name, "VerifH_")
 	if i < 0 {
+		i = strings.Index(name, "VerifP_")
+	}
+	if i < 0 {
 		return false
 	}
 	rest := name[i+len("VerifH_"):]
@@ -315,13 +322,21 @@ func cmdCheck(args []string) {
 
 	var results []*harnessResult
 	var hnames []string
-	for _, h := range w.allHarnesses() {
-		if !harnessServes(h.name, id) {
+	var selected []harness
+	for _, h0 := range w.allHarnesses() {
+		if !harnessServes(h0.name, id) {
 			continue
 		}
-		hnames = append(hnames, h.name)
-		results = append(results, ex.run(h.fn, h.name))
+		xs, err := ex.expand(h0)
+		if err != nil {
+			fail(err)
+		}
+		for _, h := range xs {
+			hnames = append(hnames, h.name)
+			selected = append(selected, h)
+		}
 	}
+	results = ex.runMany(selected, nil)
 	if len(results) == 0 {
 		fail(fmt.Errorf("no harness serves %s", id))
 	}
